@@ -34,11 +34,24 @@ def build(ctx):
     ctx.emit('Latch_count_down.body.inc', r.function(L, r'void\s+count_down\s*\(\s*uint32_t\s+n\s*=\s*1\s*\)', within=lat), must_fire=['R7', 'R17'],
              subs=st + [('R17', r'impl_\.notify\(0\)', 'CEI_notify(&self->impl_, 0)', 1)])
     ctx.emit('Latch_arrive_and_wait.body.inc', r.function(L, r'void\s+arrive_and_wait\s*\(\s*\)', within=lat), must_fire=['R7', 'R17'],
-             subs=st + [('R17', r'impl_\.notify\(0\)', 'CEI_notify(&self->impl_, 0)', 1), ('R17', r'impl_\.wait\(0\)', 'CEI_wait(&self->impl_, 0)', 1)])
+             subs=st + [('R17', r'impl_\.notify\(0\)', 'CEI_notify(&self->impl_, 0)', 1), ('R17', r'impl_\.wait\(0\)', 'CEI_wait(&self->impl_, 0)', 'opt'), ('R17', r'(?<![\w.>])wait\(\);', 'Latch_wait(self);', 'opt')])
     ctx.emit('Latch_try_wait.body.inc', r.function(L, r'bool\s+try_wait\s*\(\s*\)\s*const', within=lat), must_fire=['R7'],
              subs=[('R7', r'impl_\.intrusiveStatus\(\)\.load\(std::memory_order_(\w+)\)', r'A_LOAD_int(&self->impl_.status_, MO_\1)', 1)])
-    ctx.emit('Latch_wait.body.inc', r.function(L, r'void\s+wait\s*\(\s*\)\s*const', within=lat), must_fire=['R17'],
-             subs=[('R17', r'impl_\.wait\(0\)', 'CEI_wait((CompletionEventImpl*)&self->impl_, 0)', 1)])
+    ctx.emit('CEI_waitUntilChanged.body.inc', r.function(C, r'void\s+waitUntilChanged\s*\(\s*int\s+currentValue\s*\)\s*const', within=LINUX), must_fire=['R19'],
+             subs=[('R19', r'futex\(&ftx_, FUTEX_WAIT_PRIVATE, currentValue, nullptr, nullptr, 0\)', 'G_futex_wait_value(&self->status_, currentValue)', 1)])
+    # Latch::wait(): either the plain impl_.wait(0), or any polling loop built from try_wait() / cpuRelax() / waitUntilChanged(v): an
+    # unbounded `for (;;)` gets a partial-correctness loop contract, bounded inner loops are unwound by the driver
+    wp = r.function(L, r'void\s+wait\s*\(\s*\)\s*const', within=lat)
+    cw = ctx.emit('Latch_wait.body.inc', wp, must_fire=['R17'],
+                  subs=[('R17', r'impl_\.wait\(0\)', 'CEI_wait((CompletionEventImpl*)&self->impl_, 0)', 'opt'),
+                        ('R17', r'impl_\.waitUntilChanged\(', 'CEI_waitUntilChanged((CompletionEventImpl*)&self->impl_, ', 'opt'),
+                        ('R7', r'impl_\.intrusiveStatus\(\)\.load\(std::memory_order_(\w+)\)', r'A_LOAD_int(&((Latch*)self)->impl_.status_, MO_\1)', 'opt'),
+                        ('R17', r'(?<![\w.>])try_wait\(\)', 'Latch_try_wait(self)', 'opt'),
+                        ('R16', r'detail::cpuRelax\(\);', '/* pause */', 'opt'),
+                        ('LC', r'(for\s*\(int\s+(\w+)\s*=\s*0;\s*\2\s*<\s*[^;{}]+;\s*\+\+\2\))\s*\{', r'\1 __CPROVER_assigns(\2, ((Latch*)self)->impl_.status_, g_last_loaded, g_loaded, g_waits, g_last_mo, g_errno) __CPROVER_loop_invariant(g_completed == 0 && \2 >= 0) {', 'opt'),
+                        ('LC', r'for\s*\(\s*;\s*;\s*\)\s*\{', 'for (;;) __CPROVER_assigns(((Latch*)self)->impl_.status_, g_last_loaded, g_loaded, g_waits, g_last_mo, g_errno) __CPROVER_loop_invariant(g_completed == 0) {', 'opt')]
+                       + X.const_subs(r, L, wp))
+    wait_loops = '__CPROVER_loop_invariant' in cw
     S = 'specs/c21_events.c'
     rp = lambda kind: dict(prog='replay/c21_replay.cpp', args=lambda ce, u, kind=kind: [kind, 'count0=' + str(ce['count0']), 'n=' + str(ce['n']).rstrip('u')])
     fl = ['--nondet-static']
@@ -47,8 +60,9 @@ def build(ctx):
         Unit('CompletionEventImpl.wait', 'cbmc', S, 'CEI_wait', flags=fl, loop_contracts=True,
              expect=[r'postcondition\.2', r'G_futex_wait\.assertion\.2', r'loop_invariant_step|loop_step']),
         Unit('Latch.count_down', 'cbmc', S, 'Latch_count_down', flags=fl, replace=['CEI_notify'], expect=[r'postcondition\.2'], replay=rp('count_down')),
-        Unit('Latch.arrive_and_wait', 'cbmc', S, 'Latch_arrive_and_wait', flags=fl, replace=['CEI_notify', 'CEI_wait'], expect=[r'postcondition\.2']),
+        Unit('CompletionEventImpl.waitUntilChanged', 'cbmc', S, 'CEI_waitUntilChanged', flags=fl, expect=[r'postcondition', r'G_futex_wait_value\.assertion']),
+        Unit('Latch.arrive_and_wait', 'cbmc', S, 'Latch_arrive_and_wait', flags=fl, replace=['CEI_notify', 'CEI_wait', 'Latch_wait'], expect=[r'postcondition\.2']),
         Unit('Latch.try_wait', 'cbmc', S, 'Latch_try_wait', flags=fl, expect=[r'postcondition\.1']),
-        Unit('Latch.wait', 'cbmc', S, 'Latch_wait', flags=fl, replace=['CEI_wait'], expect=[r'postcondition\.1']),
+        Unit('Latch.wait', 'cbmc', S, 'Latch_wait', flags=fl, replace=['CEI_wait', 'CEI_waitUntilChanged', 'Latch_try_wait'], expect=[r'postcondition\.1'], loop_contracts=wait_loops, unwind=(8 if wait_loops else None), object_bits=(12 if wait_loops else None)),
     ]
     return units
